@@ -4,6 +4,7 @@ import math
 import random
 
 from vmon import gens as G
+from vmon.gens import THOROUGH_SCALE as TS
 from vmon import oracles as O
 
 PID = "C17"
@@ -242,7 +243,7 @@ def generate(tier, seed):
             for n in range(0, tot + 2):
                 for s in range(3 if thorough else 1):
                     yield "subsample", {"counts": list(counts), "n": n, "np_seed": seed * 1000 + s + n}, True
-    for i in range(2000 if thorough else 150):
+    for i in range(2000 * TS if thorough else 150):
         L = rng.randint(1, 40)
         counts = [rng.randint(0, rng.choice([1, 5, 200])) for _ in range(L)]
         tot = sum(counts)
@@ -250,16 +251,16 @@ def generate(tier, seed):
         yield "subsample", {"counts": counts, "n": n, "np_seed": seed * 7919 + i}, i < 50
     unis = [([1] * 12, 5), ([10, 1, 5, 4], 7), ([3, 3, 3, 3, 3, 3], 9), ([50, 2, 2], 10), ([1, 20], 3), ([5, 5], 5), ([2, 9, 1, 8], 19), ([7], 3)]
     for i, (counts, n) in enumerate(unis if not thorough else unis * 3):
-        yield "uniform", {"counts": counts, "n": n, "runs": 400 if not thorough else 1500, "np_seed": seed * 31 + i}, True
+        yield "uniform", {"counts": counts, "n": n, "runs": 400 if not thorough else 1500 * TS, "np_seed": seed * 31 + i}, True
     pools = [G.universe("AC", 4), G.universe("ACD", 3)]
-    for i in range(1500 if thorough else 120):
+    for i in range(1500 * TS if thorough else 120):
         seqs = G.small_multiset(rng, pools[i % 2], 1, 30)
         maxseqs = rng.choice([None, 0, 1, 2, 3, 5, 10, len(seqs), len(seqs) - 1 if len(seqs) > 1 else 1, 100])
         yield "downsample", {"seqs": seqs, "maxseqs": maxseqs, "container": ["list", "ndarray", "table", "series", "table_dupindex"][i % 5], "np_seed": seed * 13 + i}, i < 60
-    for i in range(600 if thorough else 50):
+    for i in range(600 * TS if thorough else 50):
         yield "powerlaw_sample", {"size": rng.choice([0, 1, 2, 10, 1000]), "xmin": rng.choice([1, 1, 2, 5, 30]),
                                   "alpha": rng.choice([1.1, 1.5, 2.0, 2.5, 3.0, 6.0]), "np_seed": seed * 17 + i}, i < 30
-    for i in range(600 if thorough else 50):
+    for i in range(600 * TS if thorough else 50):
         n = rng.randint(2, 200)
         al = rng.choice([1.6, 2.0, 2.5, 3.0, 4.0])
         c = [int(math.floor((1 - 0.5) * (1 - rng.random()) ** (-1 / (al - 1)) + 0.5)) for _ in range(n)]
